@@ -527,11 +527,18 @@ impl<'a> World<'a> {
         if let Ok(mut l) = DROP_LOG.lock() {
             l.clear();
         }
-        let (Some(b), Some(cf), Some(ce)) = (out.control, out.canon_full, out.canon_eps) else {
+        // reference of every loader (load_full included): ε-copy deserialization of the file's bytes
+        let (Some(b), Some(ce)) = (out.control, out.canon_eps) else {
             self.counts.push("control_failures".into());
             let _ = std::fs::remove_file(&path);
+            if let Some(fi) = target {
+                // the existing file was overwritten with junk and is now gone
+                self.files[fi].unlinked = true;
+            }
             return;
         };
+        let cf = out.canon_full.unwrap_or_else(|| ce.clone());
+        let _ = &cf;
         self.h.str("store").u64(b.len() as u64);
         match &out.result {
             Ok(Ok(())) => {}
@@ -545,6 +552,15 @@ impl<'a> World<'a> {
             self.counts.push("probe.store_over_longer_file".into());
         }
         self.counts.push(format!("len_mod_64.{}", b.len() % 64));
+        match b.len() % 4096 {
+            0 => self.counts.push("probe.file_len_multiple_of_page".into()),
+            1 => self.counts.push("probe.file_len_page_plus_one".into()),
+            4095 => self.counts.push("probe.file_len_page_minus_one".into()),
+            _ => {}
+        }
+        if b.len() > 8192 {
+            self.counts.push("probe.file_larger_than_8KiB".into());
+        }
         let ent = FileEnt { path, doc: docname, bytes: b, canon_full: cf, canon_eps: ce, tags: out.tags, probe: out.probe, unlinked: false, rewritten: false };
         match target {
             Some(fi) => self.files[fi] = ent,
@@ -591,7 +607,7 @@ impl<'a> World<'a> {
                 (obj, o)
             })
         });
-        let expect = if loader == Loader::Full { self.files[fi].canon_full.clone() } else { self.files[fi].canon_eps.clone() };
+        let expect = self.files[fi].canon_eps.clone();
         self.slots.push(SlotEnt { holder: Some(Holder::Boxed(obj)), file: fi, file_len, loader, flags, expect, obs0: obs.clone(), probe: obs.probe, loaded_on: actor, op_loaded: i });
         let si = self.slots.len() - 1;
         self.check_obs(i, si, &obs, "first read");
@@ -1018,12 +1034,14 @@ const WORLD_DOCS: &[&str] = &[
 ];
 
 fn pick_vi(r: &mut Rng, max_vi: u64) -> u64 {
-    match r.below(12) {
+    match r.below(14) {
         0 => 0,
         1 => 1,
         2 => 2,
         3 => 5,
-        _ => 6 + r.below(max_vi),
+        // boundary-fitted stream lengths (8192, 4096, 64, 16; -1, 0, +1) for Padded documents
+        4 | 5 => 6 + r.below(12),
+        _ => 18 + r.below(max_vi),
     }
 }
 
